@@ -79,16 +79,22 @@ impl Tree {
         }
         else {
             let node = self.items.get_mut(&id).unwrap();
+            // The expansion of a single definition can contain the same path more than
+            // once (e.g. `[A]:[A]`), which is not a collision.
             if cmd.command.is_query() {
-                if let Some(_existing) = &node.query {
-                    return Err(Error::QueryExists);
+                if let Some(existing) = &node.query {
+                    if !Rc::ptr_eq(existing, &cmd) {
+                        return Err(Error::QueryExists);
+                    }
                 }
                 else {
                     node.query = Some(cmd)
                 }
             }
-            else if let Some(_existing) = &node.command {
-                return Err(Error::CommandExists);
+            else if let Some(existing) = &node.command {
+                if !Rc::ptr_eq(existing, &cmd) {
+                    return Err(Error::CommandExists);
+                }
             }
             else {
                 node.command = Some(cmd)
